@@ -402,6 +402,55 @@ def search(ctx, budget_s):
         except Exception as e:
             ctx.violation(f"selector-{sel}", f"differential_flow rejects the documented selector {sel!r}: {type(e).__name__}: {e}",
                           dict(input=dict(selector=sel)))
+    # the decision functions themselves (when reachable), against the table written out independently here:
+    # x = factor_k * c;  x >= 0 -> x^(1/k);  else negative -> -(-x)^(1/k), zero -> 0, nan -> NaN.  Includes the
+    # boundary c = +-0.0 exactly and values next to it.
+    fac = {2: 1.0, 4: -1.0, 6: 0.25}
+    tiny = 5e-324
+    try:
+        for k in (2, 4, 6):
+            for im in IMAG:
+                for c in (0.0, -0.0, tiny, -tiny, 1e-300, -1e-300, 0.0625, -0.0625, 1.0, -1.0, 81.0, -81.0):
+                    x = fac[k] * c
+                    if x >= 0.0:
+                        want = x ** (1.0 / k)
+                    else:
+                        want = {"negative": -((-x) ** (1.0 / k)), "zero": 0.0, "nan": float("nan")}[im]
+                    got = real_fc(k, im, c)
+                    ctx.case(("oracle-fc", k, im, repr(c)), True)
+                    ctx.count(f"oracle-fc/k={k}/{im}")
+                    if not ((want != want and got != got) or close(got, want, rel=1e-12, abs_=0.0)):
+                        ctx.violation(f"flow-from-cumulant-k{k}-{im}-{'boundary' if abs(c) < 1e-200 else 'neg' if x < 0 else 'pos'}",
+                                      f"__flow_from_cumulant(k={k}, imaginary={im!r}) of c_n{{{k}}} = {c!r}: {got!r}, the "
+                                      f"decision table of the property gives {want!r}",
+                                      dict(input=dict(kind="fc", k=k, imaginary=im, cnk=c), detail=dict(got=got, want=want)))
+        for k in (2, 4):
+            for im in IMAG:
+                for c in (0.0, -0.0, tiny, -tiny, 0.0625, -0.0625, 4.0, -4.0):
+                    for d in (0.25, -0.5):
+                        phys = c > 0.0 if k == 2 else c < 0.0
+                        e = 0.5 if k == 2 else 0.75
+                        if phys:
+                            want = (d if k == 2 else -d) / (fac[k] * c) ** e
+                        elif im == "negative":
+                            want = ((d if k == 2 else -d) / (-fac[k] * c) ** e) if c != 0.0 else None  # x/0: not pinned
+                        else:
+                            want = {"zero": 0.0, "nan": float("nan")}[im]
+                        if want is None:
+                            continue
+                        try:
+                            got = real_dfc(k, im, c, d)
+                        except ZeroDivisionError:
+                            continue
+                        ctx.case(("oracle-dfc", k, im, repr(c), d), True)
+                        ctx.count(f"oracle-dfc/k={k}/{im}")
+                        if not ((want != want and got != got) or close(got, want, rel=1e-12, abs_=0.0)):
+                            ctx.violation(f"differential-flow-from-cumulant-k{k}-{im}-{'boundary' if abs(c) < 1e-200 else 'phys' if phys else 'unphys'}",
+                                          f"__flow_from_cumulant_differential(k={k}, imaginary={im!r}) of c = {c!r}, d = {d!r}: "
+                                          f"{got!r}, the decision table gives {want!r}",
+                                          dict(input=dict(kind="dfc", k=k, imaginary=im, cnk=c, dnk=d), detail=dict(got=got, want=want)))
+    except NoPrivateAccess:
+        ctx.count("oracle-fc/skipped-no-private-access")
     limit = 3000 if ctx.thorough else 60
     # stratified: every k x imaginary mode must be seen with both signs of the cumulant
     need = {(k, im, sg) for k in (2, 4, 6) for im in IMAG for sg in (-1, 1)}
@@ -462,7 +511,13 @@ def replay(ctx, path):
     if not inp or "kind" not in inp:
         print(f"[C11] replay file names a broken obligation or a selector, not a sample: {d.get('broken') or inp}")
         return 1
-    if inp["kind"] == "integrated":
+    if inp["kind"] in ("fc", "dfc"):
+        want = d["detail"]["want"]
+        got = real_fc(inp["k"], inp["imaginary"], inp["cnk"]) if inp["kind"] == "fc" else \
+            real_dfc(inp["k"], inp["imaginary"], inp["cnk"], inp["dnk"])
+        ok = (want != want and got != got) or close(got, want, rel=1e-12, abs_=0.0)
+        r = None if ok else ("fc", f"decision function returns {got!r}, the table of the property gives {want!r} on {inp}")
+    elif inp["kind"] == "integrated":
         r = check_integrated(inp["phis"], inp["n"], inp["k"], inp["imaginary"])
     else:
         from sparkx.Particle import Particle
